@@ -5,7 +5,7 @@
    for empty loaders is stated separately (the real code raises UnboundLocalError on `i`). *)
 From Coq Require Import List Bool Arith ZArith QArith String.
 Import ListNotations.
-From SG Require Import State.Contexts State.ModeTree State.Trainer Proofs.TrainerProofs Proofs.TrainerHistoryProofs Proofs.TrainerTreeProofs.
+From SG Require Import State.Contexts State.ModeTree State.Trainer Proofs.TrainerProofs Proofs.TrainerHistoryProofs Proofs.TrainerTreeProofs Proofs.TrainerAbortProofs.
 
 Notation llen := List.length.
 
@@ -141,6 +141,27 @@ Proof.
 Qed.
 Goal True. idtac "ASSUMPTIONS test_in_eval_nograd". Abort.
 Print Assumptions test_in_eval_nograd.
+
+(* ---- exceptions ----------------------------------------------------------------------------------------------- *)
+(* ANY event of fit may raise (a bad batch in the forward, the loss, the evaluator, a callback, KeyboardInterrupt):
+   [unwind m pre] is the trace of the call that raises at the last event of the prefix [pre] — the prefix followed
+   by the __exit__ of the no_grad block that is open at that point (`with` runs it).  Afterwards the gradient mode,
+   the saved-mode stack and the depth are those in force when fit was called, so the caller that catches the
+   exception finds the global mode untouched (and a following fit trains). *)
+Theorem exception_in_fit_restores_grad_mode :
+  forall c epochs t0 g0 sv pre post, (1 <= nb c)%nat -> val_ok c ->
+    fst (fit c epochs) = pre ++ post ->
+    gbase g0 sv (mrun (mstart t0 g0 sv) (unwind (mstart t0 g0 sv) pre)).
+Proof. exact fit_exception_restores. Qed.
+Goal True. idtac "ASSUMPTIONS exception_in_fit_restores_grad_mode". Abort.
+Print Assumptions exception_in_fit_restores_grad_mode.
+
+Theorem exception_in_test_restores_grad_mode :
+  forall nbt t0 g0 sv pre post, test_trace nbt = pre ++ post ->
+    gbase g0 sv (mrun (mstart t0 g0 sv) (unwind (mstart t0 g0 sv) pre)).
+Proof. exact test_exception_restores. Qed.
+Goal True. idtac "ASSUMPTIONS exception_in_test_restores_grad_mode". Abort.
+Print Assumptions exception_in_test_restores_grad_mode.
 
 (* ---- empty loaders / zero epochs: what the model says --------------------------------------------------- *)
 (* nb = 0: the first epoch raises (UnboundLocalError on `i` after the empty loop) right after the second
